@@ -20,6 +20,7 @@ pub mod c13;
 pub mod c14;
 pub mod c15;
 pub mod c16;
+pub mod c17;
 pub mod c18;
 pub mod c19;
 pub mod c20;
@@ -78,6 +79,19 @@ table! {
     c20::h_iterate,
     c20::h_filenames,
     c20::h_is_valid,
+    c17::h_pattern,
+    c17::h_pattern_tokens,
+    c17::h_names,
+    c17::h_revision_digits,
+    c17::h_summary_text,
+    c17::h_summary_stream,
+    c17::h_bytes_parsers,
+    c17::h_distinfo_line,
+    c17::h_plist_line,
+    c17::h_scanindex,
+    c17::h_metadata,
+    c17::h_pkgdb,
+    c17::h_summary_calls,
     c03::h_laws2,
     c03::h_trans,
     c03::h_api_laws,
